@@ -87,8 +87,10 @@ func Harness_C05_inflate() {
 	if err == nil {
 		verif_Assert("C05.inf.nonnil", pkt != nil)
 		verif_Assert("C05.inf.payload_bound", len(pkt.Payload) <= constants.MaxPacketBodySize)
-		verif_Cover("C05.inf.packet")
-	} else {
+		if tsel == 0 { // (whether inflated bytes parse as JSON differs between the model's arbitrary bytes and the native zeros)
+			verif_Cover("C05.inf.packet")
+		}
+	} else if tsel == 0 {
 		verif_Cover("C05.inf.error")
 	}
 }
